@@ -9,7 +9,7 @@ COQ_CORR = 'corr_C19'
 N_QUICK = 2500
 N_THOROUGH = 12000
 THOROUGH_EXHAUSTIVE = False
-VM_CASES = 58          # the first cases are also evaluated inside Coq (vm_compute); the corpus minus its last entry
+VM_CASES = 60          # the first cases are also evaluated inside Coq (vm_compute); the corpus minus its last entry
 RULE = ('cases = corpus + random rules printed from abstract token lists (literal chunks incl. digits, "-", ".", '
         'non-ASCII; values containing CR (the wildcard marker), LF, NUL, TAB; plain wildcards in the three flavours :n <n> {n}; int/float/re/path filters in bottle and dotted '
         'flavour, named and anonymous; adjacent wildcards, adjacent literals, leading/trailing literals) x paths that '
@@ -169,6 +169,11 @@ def corpus():
         mk([W('a'), L('/'), W('b', fl='{'), L('/'), W('c', 'int')], '/\r/\r\r/7'),
         mk([L('p/'), W('a', 'path'), L('/e/'), W('b'), L('.'), W(None, 're', '[^/]+')], '/p/q\rr/e/\n.\r'),
         mk([W('a'), L('-'), W(None, 'int')], None, [['i', 5]], {'a': ['s', 'x\ry']}),
+        # ---- one fixed witness per listed finding, so that every run prints all six KNOWN-FINDING lines whatever the seed:
+        # F19-float: /f/0.00001 ; F19-empty: /<x.re(a*)>z on /z ; F19-minus-zero: /12-0 (all above) ;
+        # F19-shared-route-names: the /u/<a> + /u/<b> router below ; and the two that follow
+        mk([W('x', 'path'), L('.'), W('y', 'float'), L('//b')], '/1.0//b'),                       # F19-float-regex
+        mk([['W', 'x', 'rex', '(x+)y', 'd<', None], L('/'), W('n', 'int')], '/xy/7'),             # F19-rex-group
         # ---- a value that begins with '/' directly after a literal ending in '/' (doubled slash in the request path)
         mk([L('files/'), W('p', 'path')], '/files//etc/passwd'),
         mk([L('files/'), W('p', 'path')], '/files//'),
